@@ -474,3 +474,14 @@ func TestC05_StageNegationAndEmptyCPU(t *testing.T) {
 		t.Errorf("a '!' after a profile name is accepted: %v", d)
 	}
 }
+
+func TestC10_IndexFieldNames(t *testing.T) {
+	bi, err := control.ParseBinaryIndex(bufio.NewReader(strings.NewReader("Package: a\nTag: role::program, scope::utility\n")))
+	if err != nil || len(bi) != 1 || len(bi[0].Tags) != 2 {
+		t.Errorf("Packages Tag field not decoded: %v %v", bi, err)
+	}
+	si, err := control.ParseSourceIndex(bufio.NewReader(strings.NewReader("Package: a\nStandards-Version: 4.6.2\n")))
+	if err != nil || len(si) != 1 || si[0].StandardsVersion != "4.6.2" {
+		t.Errorf("Sources Standards-Version field not decoded: %v %v", si, err)
+	}
+}
